@@ -1,6 +1,6 @@
 (* Dense ranking over a type with a decidable strict total order and Leibniz
    equality.  rank1 xs x = 1 + number of distinct elements of xs below x. *)
-From Coq Require Import List Arith Lia Bool Permutation.
+From Coq Require Import List Arith Lia Bool Permutation Sorting.Sorted.
 Import ListNotations.
 
 Section DenseRank.
@@ -144,6 +144,64 @@ Section DenseRank.
   Lemma rank1_same_set xs ys x :
     (forall z, In z xs <-> In z ys) -> rank1 xs x = rank1 ys x.
   Proof. intros H. unfold rank1. f_equal. apply below_perm_length; auto. Qed.
+
+  (* ---- a strictly increasing list is ranked 1, 2, ..., n (and only such a list may skip the ranking) ------ *)
+  Definition slt (a b : A) : Prop := ltb a b = true.
+
+  Lemma sorted_app_l (l1 l2 : list A) : Sorted.StronglySorted slt (l1 ++ l2) -> Sorted.StronglySorted slt l1.
+  Proof.
+    induction l1 as [|a t IH]; intros H; [constructor|].
+    inversion H as [|? ? Ht Hall]; subst. constructor; [apply IH; exact Ht|].
+    rewrite Forall_forall in *. intros y Hy. apply Hall. apply in_or_app. left; exact Hy.
+  Qed.
+
+  Lemma dedup_sorted l : Sorted.StronglySorted slt l -> dedup l = l.
+  Proof.
+    induction l as [|a t IH]; intros H; [reflexivity|].
+    inversion H as [|? ? Ht Hall]; subst. cbn [dedup].
+    destruct (in_dec eq_dec a t) as [Hin|_].
+    - rewrite Forall_forall in Hall. specialize (Hall a Hin). unfold slt in Hall. rewrite ltb_irrefl in Hall. discriminate.
+    - rewrite IH by exact Ht. reflexivity.
+  Qed.
+
+  Lemma filter_sorted pre x suf :
+    Sorted.StronglySorted slt (pre ++ x :: suf) -> filter (fun y => ltb y x) (pre ++ x :: suf) = pre.
+  Proof.
+    induction pre as [|a p IH]; intros H.
+    - cbn [app filter]. rewrite ltb_irrefl. inversion H as [|? ? _ Hall]; subst.
+      rewrite Forall_forall in Hall. clear H.
+      induction suf as [|y t IHt]; [reflexivity|]. cbn [filter].
+      destruct (ltb y x) eqn:E.
+      + assert (Hxy : ltb x y = true) by (apply Hall; left; reflexivity).
+        pose proof (ltb_trans _ _ _ Hxy E) as C. rewrite ltb_irrefl in C. discriminate.
+      + apply IHt. intros z Hz. apply Hall. right; exact Hz.
+    - cbn [app filter]. inversion H as [|? ? Ht Hall]; subst.
+      rewrite Forall_forall in Hall.
+      assert (E : ltb a x = true) by (apply Hall; apply in_or_app; right; left; reflexivity).
+      rewrite E. f_equal. apply IH. exact Ht.
+  Qed.
+
+  Lemma rank1_sorted_prefix pre x suf :
+    Sorted.StronglySorted slt (pre ++ x :: suf) -> rank1 (pre ++ x :: suf) x = S (length pre).
+  Proof.
+    intros H. unfold rank1, below. rewrite (filter_sorted _ _ _ H).
+    rewrite dedup_sorted; [reflexivity|]. exact (sorted_app_l _ _ H).
+  Qed.
+
+  Lemma map_rank_suffix suf : forall pre,
+    Sorted.StronglySorted slt (pre ++ suf) ->
+    map (rank1 (pre ++ suf)) suf = seq (S (length pre)) (length suf).
+  Proof.
+    induction suf as [|x t IH]; intros pre H; [reflexivity|].
+    cbn [map length seq]. f_equal.
+    - apply rank1_sorted_prefix. exact H.
+    - replace (pre ++ x :: t) with ((pre ++ [x]) ++ t) in * by (rewrite <- app_assoc; reflexivity).
+      rewrite (IH (pre ++ [x]) H). rewrite app_length. cbn [length]. rewrite Nat.add_1_r. reflexivity.
+  Qed.
+
+  Theorem dense_rank_of_strictly_increasing xs :
+    Sorted.StronglySorted slt xs -> dense_rank xs = seq 1 (length xs).
+  Proof. intros H. exact (map_rank_suffix xs [] H). Qed.
 
 End DenseRank.
 
